@@ -71,6 +71,13 @@ func w2History(r *prng.R, matcher int, special int) []w2call {
 			}
 			break
 		}
+		if special == 901 {
+			// a dictionary of 64 MiB and data with one pair of markers for every distance
+			// slot such a window can use (up to 48 MiB + 1000), a Flush, a few more bytes
+			h = append(h, w2call{Op: 'W', Fam: "farmarks", N: 64<<20 + 4000 + r.Intn(100), Seed: r.U64()}, w2call{Op: 'F'},
+				w2call{Op: 'W', Fam: "text", N: 1000, Seed: r.U64()})
+			break
+		}
 		if special >= 1000 && special < 2000 {
 			// a little more than one chunk of data that is very nearly incompressible: sweeps
 			// the decision between a compressed and an uncompressed chunk
@@ -168,6 +175,10 @@ func checkC08(c *ev.Ctx) {
 		}
 		if i == nhist-nedge-nthin-1 || (thorough(c) && i%3000 == 77) {
 			special = 900
+		}
+		if i == nhist-nedge-nthin-2 {
+			special, matcher = 901, 0
+			cfg.Matcher, cfg.DictCap, cfg.BufSize = lzma.HashTable4, 64<<20, 4096
 		}
 		if thin := i - (nhist - nedge - nthin); thin >= 0 && thin < nthin {
 			special, matcher = 1000+thin, thin%2
